@@ -20,3 +20,30 @@ record("codemodder.result.Result", kind="ref",
        fields={"rule_id": "str", "locations": "list[Location]", "codeflows": "Opaque", "related_locations": "Opaque",
                "finding": "Finding | None"})
 record("codemodder.result.SASTResult", kind="ref", fields={"finding_id": "str"}, bases=["codemodder.result.Result"])
+
+# ---- codetf (pydantic models; Change/ChangeSet/UnfixedFinding are built once and never mutated here -> value records)
+record("codemodder.codetf.Change", kind="val",
+       fields={"lineNumber": "int", "description": "str | None", "diffSide": "Opaque", "properties": "Opaque",
+               "packageActions": "Opaque", "findings": "list[Finding] | None"},
+       validators=["validate_lineNumber", "validate_description"])
+record("codemodder.codetf.ChangeSet", kind="val",
+       fields={"path": "str", "diff": "str", "changes": "list[Change]", "ai": "Opaque"})
+record("codemodder.codetf.UnfixedFinding", kind="val",
+       fields={"id": "str", "rule": "Rule", "path": "str", "lineNumber": "int | None", "reason": "str"})
+
+# ---- file context / transformers --------------------------------------------------------------------
+record("codemodder.file_context.FileContext", kind="ref",
+       fields={"base_directory": "Path", "file_path": "Path", "line_exclude": "list[int]", "line_include": "list[int]",
+               "results": "list[Result] | None", "dependencies": "set[Opaque]", "codemod_changes": "list[Change]",
+               "unfixed_findings": "list[UnfixedFinding]", "changesets": "list[ChangeSet]", "failures": "list[Path]",
+               "timer": "Opaque"})
+record("codemodder.codemods.base_visitor.UtilsMixin", kind="ref",
+       fields={"results": "list[Result] | None", "line_exclude": "list[int]", "line_include": "list[int]"})
+record("codemodder.codemods.base_visitor.BaseTransformer", kind="ref", fields={}, bases=["codemodder.codemods.base_visitor.UtilsMixin"])
+record("codemodder.codemods.libcst_transformer.LibcstResultTransformer", kind="ref",
+       fields={"file_context": "FileContext", "change_description": "str", "context": "Opaque"},
+       bases=["codemodder.codemods.base_visitor.BaseTransformer"])
+
+# ---- pathlib (opaque values; assumed contracts) ----------------------------------------------------------
+external("opaque.relative_to", params={"self": "Opaque", "other": "Opaque"}, returns="Opaque", pure=True,
+         exsures=[("ValueError", None)], note="Path.relative_to: pure function of both paths; ValueError unless other is a parent")
